@@ -40,8 +40,8 @@ func runThorough(e *Env, f checkFn) {
 		e2 := *e
 		e2.P = p386
 		e.R.Floors = map[string][2]int{}
-		F0(&e2)
 		f(&e2)
+		F0(&e2)
 		base = tag(base, "GOARCH=386")
 		e.R.Counts["functions_386"] = len(p386.Funcs)
 	}
